@@ -421,7 +421,7 @@ def find_fn(src, impl, fn):
     params = []
     for p in m.group(1).split(","):
         p = p.strip()
-        if p in ("&self", "&mut self", "self", ""):
+        if p in ("&self", "&mut self", "self", "mut self", ""):
             continue
         pm = re.match(r"(?:mut\s+)?(\w+)\s*:\s*(.+)$", p)
         if not pm:
@@ -514,6 +514,15 @@ class Gen:
                 if key in env:
                     return [], env[key][0], env[key][1]
             raise Fail(f"field access {e} outside the translated subset")
+        if k == "index":
+            try:
+                lk = self.lhs_key(e[1]) + ".len"
+            except Fail:
+                lk = None
+            if lk not in env:
+                raise Fail("indexing outside the translated subset")
+            g, t, ty = self.expr(e[2], env)
+            return g + [f"{t} < {env[lk][0]}"], t, "index"      # out of bounds panics
         if k == "cast":
             g, t, ty = self.expr(e[1], env)
             to = e[2]
@@ -1237,6 +1246,35 @@ def main():
     o.append("/-- `<PaddedStringDisplay as Display>::fmt`, the integer skeleton: `cols` is `measure_text_width(self.str)`, `len` is `self.str.len()`\n"
              "(bytes); `none` = panic (the byte arithmetic of the truncating branch underflows) -/\n"
              "def paddedFmt (cols len width : Nat) (truncate : Bool) (align : Alignment) : Option PadAction :=\n" + code + "\n")
+    # ---- style.rs: the indices `get_tick_str` / `get_final_tick_str` compute, and what the builders assert
+    for fn, nm, ps in (("get_tick_str", "tickIndex", "(nticks idx : Nat)"), ("get_final_tick_str", "finalTickIndex", "(nticks : Nat)")):
+        params, ret, body = find_fn(sty0, "ProgressStyle", fn)
+        st6 = P(lex(body)).stmts()
+        if len(st6) != 1 or st6[0][0] != "tail":
+            raise Fail(f"ProgressStyle::{fn} is not a single expression")
+        g6 = Gen("ProgressStyle", [], {}, set())
+        env6 = {"self.tick_strings.len": ("nticks", "usize"), "idx": ("idx", "u64")}
+        gs6, t6, ty6 = g6.expr(st6[0][1], env6)
+        if ty6 != "index":
+            raise Fail(f"ProgressStyle::{fn} does not return an element of tick_strings")
+        o.append(f"/-- the index into `tick_strings` that `ProgressStyle::{fn}` reads (`nticks` = `self.tick_strings.len()`); `none` = panic\n"
+                 f"(underflow of `len - 1`, remainder by zero, index out of bounds) -/\n"
+                 f"def {nm} {ps} : Option Nat :=\n  if ({' ∧ '.join(gs6)}) then some {t6} else none\n")
+    for fn, nm, ps, envb in (("tick_chars", "tickCharsAccepts", "(n : Nat)", {"self.tick_strings.len": ("n", "usize")}),
+                             ("tick_strings", "tickStringsAccepts", "(n : Nat)", {"self.tick_strings.len": ("n", "usize")}),
+                             ("progress_chars", "progressCharsAccepts", "(n w : Nat)", {"self.progress_chars.len": ("n", "usize"), "self.char_width": ("w", "usize")})):
+        params, ret, body = find_fn(sty0, "ProgressStyle", fn)
+        conds = []
+        for mm in re.finditer(r"assert!\s*\(\s*([^,]+),", strip_comments(body)):
+            g7 = Gen("ProgressStyle", [], {}, set())
+            gs7, t7, ty7 = g7.expr(P(lex(mm.group(1))).expr(), envb)
+            if gs7 or ty7 != "bool":
+                raise Fail(f"ProgressStyle::{fn}: assertion {mm.group(1)!r} outside the translated subset")
+            conds.append(t7)
+        if not conds:
+            raise Fail(f"ProgressStyle::{fn}: no assertion found")
+        o.append(f"/-- what the assertions of `ProgressStyle::{fn}` demand ({'`n` = number of tick strings' if 'tick' in fn else '`n` = number of progress character clusters, `w` = their common width (`width()` asserts that it is common)'}) -/\n"
+                 f"def {nm} {ps} : Prop := {' ∧ '.join(conds)}\n")
     # ---- defaults of state.rs / style.rs
     ty, v = const_value(stt, "DEFAULT_TAB_WIDTH")
     o.append(f"/-- `DEFAULT_TAB_WIDTH: {ty}` of src/state.rs -/\ndef defaultTabWidth : Nat := {v}\n")
